@@ -31,8 +31,10 @@ def guarded(f):
     """Runs a call into the library; exceptions and non-termination are observables.  Only the
     outermost guarded call arms the timer (nested calls share it)."""
     outer = _depth[0] == 0
-    if outer and _timeouts[0] >= 3:
-        return {"exc": "Timeout", "msg": "not run: the implementation already failed to return three times in this batch"}
+    if outer and _timeouts[0] >= 5:
+        # not an observation of the implementation: the harness gives up on the rest of the batch (the five calls that did not
+        # return are reported as such); the check drops these cases and counts them
+        return {"exc": "NotRun", "msg": "not run: the implementation already failed to return five times in this batch"}
     _depth[0] += 1
     if outer:
         signal.signal(signal.SIGALRM, _on_alarm)
